@@ -582,7 +582,7 @@ _SEED_RULE = {
     "C01-qr-drops-imaginary-factors": "factor-dtype", "C01-qr-shortcut-single-row": "qr-shortcut-shape", "C02-ttno-updown-labels-swapped": "label-schema",
     "C03-metacopy-shares-qntot": "label-freshness", "C04-check-right-canonical-skips-last": "check-mirror", "C05-compress-double-bond-offset": "bond-index",
     "C06-add-align-after-concat": "qn-align", "C07-freq-environ-off-by-one": "freq-env-bound", "C07-2site-rdm-conj-moved": "rdm-network", "C08-direct-2site-transposed": "heff-network",
-    "C09-rk-stage-time-parenthesis": "rk-usage", "C09-adaptive-error-drops-prefactor": "relative-error-homogeneous", "C10-term10-loses-displacement-sign": "holstein-square",
+    "C09-rk-stage-time-parenthesis": "adaptive-reject", "C09-adaptive-error-drops-prefactor": "relative-error-homogeneous", "C10-term10-loses-displacement-sign": "holstein-square",
     "C11-ttno-apply-label-order": "state-network", "C12-update2site-parent-index": "decomposition-axes", "C13-load-coeff-ndarray": "scalar-prefactor",
     "C13-variational-compress-mutates-mpo": "effect-bound", "C14-bak-removed-before-write": "crash-points", "C15-simplify-filters-before-merge": "filter-after-merge",
     "C16-holstein-linear-coupling-omega": "holstein-square", "C16-multielectron-branches-merged": "multi-electron", "C17-stacked-drops-2e-orbitals": "qc-term-coverage",
